@@ -1,3 +1,4 @@
+import Varint.Bridge.BP
 import Varint.Bridge.Delta
 import Varint.Bridge.RLEDec
 import Varint.Bridge.FORDec
@@ -322,5 +323,17 @@ theorem c_group_getfield (xs : List Nat) (h : Group.Ok xs) (i : Nat) (hi : i < x
     · exact hrest b hb
   obtain ⟨n, hg, hn⟩ := group_getField xs h i hi rest
   exact ⟨n, (Varint.Bridge.Group.groupGetField_eq _ hb h64 i (by have := h.2.1; omega) fuel hf).2 _ _ hg, hn⟩
+
+
+/-- **the BP128 block width on the translated C** (`varintBP128MaxBitWidth64` = maximum scan + `varintBP128BitsNeeded64`'s
+    shift loop): for every block of 64-bit values it returns the model's `bitWidth`, i.e. the least width every value of
+    the block fits in — the premise of the model's lossless packing. Every fuel ≥ n + 66. -/
+theorem c_bp128_block_width (xs : List Nat) (hx : ∀ x ∈ xs, x < 2 ^ 64) (hn : xs.length < 2 ^ 63) (fuel : Nat)
+    (hf : xs.length + 66 ≤ fuel) :
+    Varint.Gen.C.bpMaxBitWidth64 fuel (Varint.Bridge.Tagged.bufOf xs) xs.length = some (BP128.bitWidth xs) ∧
+    (∀ x ∈ xs, x < 2 ^ BP128.bitWidth xs) ∧ BP128.bitWidth xs ≤ 64 ∧
+    ∀ v, v < 2 ^ 64 → Varint.Gen.C.bpBitsNeeded64 fuel v = some (Bits.bitsNeeded v) :=
+  ⟨Varint.Bridge.BP.bpMaxBitWidth64_eq xs hx hn fuel hf, BP128.lt_pow_bitWidth xs, BP128.bitWidth_le_64 xs hx,
+   fun v hv => Varint.Bridge.BP.bpBitsNeeded64_eq v fuel hv (by omega)⟩
 
 end Varint.Props.C02
